@@ -648,9 +648,11 @@ mutual
     | .bin .while cnd body =>
       lift (eval cx fuel env s cnd) (fun s env x =>
         if truthy s x then
-          match exec cx fuel env s body with
-          | (s, env, .ok ()) => exec cx fuel env s c
-          | r => r
+          -- variables declared in the body live for one iteration (a fresh innermost scope,
+          -- dropped afterwards), as in `repeat` and `for-each`
+          match exec cx fuel ([] :: env) s body with
+          | (s, _, .ok ()) => exec cx fuel env s c
+          | (s, _, r) => (s, env, r)
         else (s, env, .ok ()))
     | .repeat i n body =>
       lift (eval cx fuel env s n) (fun s env nv =>
